@@ -35,6 +35,9 @@ WbOperandsSmall == { Ref(<<>>, FALSE, CellG(1, 2, FALSE, FALSE)), Ref(<<>>, FALS
                      Rect(<<>>, FALSE, 1, 2, FALSE, 2, 4, FALSE), Ref(<<>>, FALSE, RowsG(2, FALSE, 3, FALSE)),
                      Rect(S1, FALSE, 2, 1, FALSE, 3, 3, TRUE), Ref(MySheet, TRUE, CellG(2, 2, FALSE, FALSE)) }
 WbOperandsTiny  == { Rect(<<>>, FALSE, 1, 2, FALSE, 2, 4, FALSE), Ref(S1, FALSE, CellG(2, 3, TRUE, TRUE)) }
+(* intersections whose operands are function calls, parenthesised ranges and names *)
+WbOperandsIsect == { Rect(<<>>, FALSE, 1, 2, FALSE, 2, 4, FALSE), Rect(S1, FALSE, 2, 1, FALSE, 3, 3, TRUE), Name(<<"r", "a", "t", "e">>) }
+NsOne == {1}
 NoFns == {}
 NoOps == {}
 NoPre == {}
